@@ -60,7 +60,7 @@ Record reducers : Type := mkReducers { r_all : value; r_any : value; r_and : val
 
 (* ---- admissibility of binary operators (bin_op.rs::can_be_used) ---- *)
 Definition assign_ok (lhs rhs : ty) (cbu : ty -> ty -> bool) (rtf : ty -> ty -> outcome ty) : outcome bool :=
-  match mut_element_type lhs with
+  match mut_element_type_spec lhs with
   | None => Ok false
   | Some vt =>
       let c := cbu vt rhs in
@@ -239,7 +239,7 @@ Fixpoint check_x (fuel : nat) (sc : scopes) (e : lenv) (x : sx) {struct fuel} : 
         obind (cx y) (fun yi => obind (cx i) (fun ii =>
         obind (rt yi) (fun yt => obind (rt ii) (fun it =>
         if negb (ty_eqb it TInt) then reject
-        else if negb (can_be_indexed yt) then reject
+        else if ty_eqb yt TNever || negb (can_be_indexed yt) then reject
         else Ok (IBin At yi ii)))))
     | XSlice y a b c =>
         obind (cx y) (fun yi => obind (rt yi) (fun yt =>
@@ -285,19 +285,21 @@ Fixpoint check_x (fuel : nat) (sc : scopes) (e : lenv) (x : sx) {struct fuel} : 
         else Ok (IFieldAccess yi f)))
     | XTypeFilter y t =>
         obind (cx y) (fun yi => obind (rt yi) (fun yt =>
-        if is_iterator yt then Ok (ITypeFilter yi t) else reject))
+        if is_iterator yt && (match of_type t with Some _ => true | None => false end)
+        then Ok (ITypeFilter yi t) else reject))
     | XPostfix op y =>
         obind (cx y) (fun yi => obind (rt yi) (fun yt =>
         let plant := fun (f : value) => Ok (IBin FunctionCall (IVar f) (ITuple [yi])) in
+        let never := ty_eqb yt TNever in
         match op with
-        | USum => if matches yt ACC_SUM then Ok (IUn USum yi) else reject
-        | UProduct => if matches yt ACC_PRODUCT then Ok (IUn UProduct yi) else reject
+        | USum => if negb never && matches yt ACC_SUM then Ok (IUn USum yi) else reject
+        | UProduct => if negb never && matches yt ACC_PRODUCT then Ok (IUn UProduct yi) else reject
         | UAll => if matches yt (TFun [] (TTup [TBool; TBool])) then plant (r_all red) else reject
         | UAny => if matches yt (TFun [] (TTup [TBool; TBool])) then plant (r_any red) else reject
         | UBitAnd => if matches yt (TFun [] (TTup [TBool; TInt])) then plant (r_and red) else reject
         | UBitOr => if matches yt (TFun [] (TTup [TBool; TInt])) then plant (r_or red) else reject
-        | UCollect => if matches yt ITERATOR_TYPE then Ok (IUn UCollect yi) else reject
-        | UIter => if matches yt (TArr TAny) then Ok (IUn UIter yi) else reject
+        | UCollect => if negb never && matches yt ITERATOR_TYPE then Ok (IUn UCollect yi) else reject
+        | UIter => if negb never && matches yt (TArr TAny) then Ok (IUn UIter yi) else reject
         | _ => Panic
         end))
     end
